@@ -321,7 +321,7 @@ def case(spec):
 def main(tier, seed, scale=1.0):
     BIN['san'] = build.ensure('san')
     q = tier == 'quick'
-    counts = {'bodies': 40 if q else 4000, 'watford-hi': 20 if q else 1000, 'opus': 40 if q else 3000}
+    counts = {'bodies': 90 if q else 4000, 'watford-hi': 40 if q else 1000, 'opus': 100 if q else 3000}
     specs = []
     for k, n in counts.items():
         specs += [(seed, k, i, tier) for i in range(max(4, int(n * scale)))]
